@@ -59,6 +59,7 @@ type Run struct {
 	known        map[string]string // sig -> text
 	exhaustive   bool
 	InconBudget  float64 // allowed fraction of inconclusive cases
+	NoEvidence   bool    // replay mode: do not write the evidence file
 	MaxReplays   int
 }
 
